@@ -44,19 +44,25 @@ def registered_builtin(E, name):
     global _REG
     if _REG is None:
         src = open(os.path.join(REPO, 'src', 'lib.rs')).read(); _REG = {}
-        for m in re.finditer(r'(\w+Builtin)\s*\{\s*name:\s*"((?:[^"\\]|\\.)*)"\.to_string\(\),\s*body:\s*(\||[A-Za-z_]\w*\s*,)', src):
-            pos = m.start(3); line = src.count('\n', 0, pos) + 1; col = pos - (src.rfind('\n', 0, pos) + 1) + 1
-            if m.group(3) != '|': _REG[m.group(2)] = (m.group(1), ('fn', m.group(3).rstrip(', \n')))          # body: a named function
-            else: _REG[m.group(2)] = (m.group(1), f'{{closure@src/lib.rs:{line}:{col}:')
+        IDENT = {'Obj::zero()': 0, 'Obj::one()': 1, 'Obj::from(false)': 0, 'Obj::from(true)': 1}          # the `identity` field of the fold builtins
+        for m in re.finditer(r'(\w+Builtin)\s*\{\s*name:\s*"((?:[^"\\]|\\.)*)"\.to_string\(\),\s*(?:identity:\s*([^,]+),\s*)?body:\s*(\||[A-Za-z_]\w*\s*,)', src):
+            pos = m.start(4); line = src.count('\n', 0, pos) + 1; col = pos - (src.rfind('\n', 0, pos) + 1) + 1
+            extra = None
+            if m.group(3) is not None:
+                if m.group(3).strip() not in IDENT: continue
+                extra = IDENT[m.group(3).strip()]
+            if m.group(4) != '|': _REG[m.group(2)] = (m.group(1), ('fn', m.group(4).rstrip(', \n')), extra)          # body: a named function
+            else: _REG[m.group(2)] = (m.group(1), f'{{closure@src/lib.rs:{line}:{col}:', extra)
     if name not in _REG: raise Missing(f'builtin {name!r} is not a closure registration in initialize')
-    wrapper, key = _REG[name]
+    wrapper, key, extra = _REG[name]
+    mid = [num(extra)] if extra is not None else []
     if isinstance(key, tuple):
         fs = [g for g in E.by_last.get(key[1], []) if '{closure' not in g.name and g.name.split('::')[-1] == key[1]]
         if len(fs) != 1: raise Missing(f'function {key[1]} (body of builtin {name!r}) not found uniquely in the MIR dump')
-        return Adt(wrapper, None, [sbytes(name), FnItem(fs[0].name)])
+        return Adt(wrapper, None, [sbytes(name)] + mid + [FnItem(fs[0].name)])
     tys = [ty for ty in E.closures if ty.startswith(key)]
     if len(tys) != 1: raise Missing(f'closure of builtin {name!r} not found in the MIR dump')
-    return Adt(wrapper, None, [sbytes(name), Closure(tys[0], [])])
+    return Adt(wrapper, None, [sbytes(name)] + mid + [Closure(tys[0], [])])
 
 _CMP = None
 def comparison_builtin(E, name):
